@@ -1,6 +1,10 @@
 package verifsim
 
-import "runtime"
+import (
+	"cmp"
+	"runtime"
+	"slices"
+)
 
 func runtimeStack(buf []byte) int { return runtime.Stack(buf, true) }
 
@@ -17,4 +21,15 @@ func goid() uint64 {
 		id = id*10 + uint64(c-'0')
 	}
 	return id
+}
+
+// SortedKeys returns the keys of m in ascending order (determinism aid for
+// rewritten map iterations; see verifrewrite -sort).
+func SortedKeys[M ~map[K]V, K cmp.Ordered, V any](m M) []K {
+	keys := make([]K, 0, len(m))
+	for k := range m {
+		keys = append(keys, k)
+	}
+	slices.Sort(keys)
+	return keys
 }
